@@ -66,3 +66,39 @@ pub fn unhex(s: &str) -> Vec<u8> {
         .map(|i| u8::from_str_radix(&s[2 * i..2 * i + 2], 16).unwrap_or(0))
         .collect()
 }
+
+struct StderrLogger;
+
+impl log::Log for StderrLogger {
+    fn enabled(&self, _m: &log::Metadata) -> bool {
+        true
+    }
+    fn log(&self, r: &log::Record) {
+        eprintln!(
+            "[{:>10.3} ms] {:5} {}: {}",
+            crate::sim::clock::now() as f64 / 1000.0,
+            r.level(),
+            r.target(),
+            r.args()
+        );
+    }
+    fn flush(&self) {}
+}
+
+static LOGGER: StderrLogger = StderrLogger;
+
+/// Enable rs-matter's own log output on stderr (virtual time stamps) when `RSMV_LOG` is set
+/// to a level name (error / warn / info / debug / trace).
+pub fn init_log_from_env() {
+    if let Ok(level) = std::env::var("RSMV_LOG") {
+        let lf = match level.as_str() {
+            "error" => log::LevelFilter::Error,
+            "warn" => log::LevelFilter::Warn,
+            "debug" => log::LevelFilter::Debug,
+            "trace" => log::LevelFilter::Trace,
+            _ => log::LevelFilter::Info,
+        };
+        let _ = log::set_logger(&LOGGER);
+        log::set_max_level(lf);
+    }
+}
